@@ -80,7 +80,12 @@ func (self *Searcher) getByPath(path ...interface{}) (Node, error) {
 		if err == types.ERR_UNSUPPORT_TYPE {
 			panic("path must be either int(>=0) or string")
 		}
-		return Node{}, self.parser.syntaxError(err)
+		se := self.parser.syntaxError(err)
+		if self.CopyReturn {
+			// the copying variant hands out nothing that refers to the input, the error included
+			se.Src = rt.Mem2Str([]byte(se.Src))
+		}
+		return Node{}, se
 	}
 
 	t := switchRawType(self.parser.s[start])
